@@ -741,6 +741,13 @@ def write(gen_dir, text):
 if __name__ == "__main__":
     repo = os.environ.get("VERIF_REPO", "/repo")
     text, rep = translate_all(repo)
+    if "--out" in sys.argv:
+        # scratch use (robustness experiments): write elsewhere, under another namespace
+        out = sys.argv[sys.argv.index("--out") + 1]
+        ns = sys.argv[sys.argv.index("--namespace") + 1] if "--namespace" in sys.argv else "BM.Gen.Src"
+        with open(out, "w") as f:
+            f.write(text.replace("BM.Gen.Src", ns))
+        sys.exit(0)
     changed = write(GEN_DIR, text)
     json.dump({"changed": changed, "functions": rep}, sys.stdout, indent=1)
     print()
